@@ -232,6 +232,9 @@ pub fn in_class(class: &str, l: &srp::Login) -> bool {
         "S-low-zero-1" => low == 1,
         "S-low-zero-2" => low == 2,
         "S-low-zero-3" => low == 3,
+        // an odd run of low zero bytes followed one byte later by another zero: 00 xx 00 .. (pairwise stripping differs)
+        "S-low-00-xx-00" => l.s_server[0] == 0 && l.s_server[1] != 0 && l.s_server[2] == 0,
+        "S-low-00-00-00-xx-00" => low == 3 && l.s_server[4] == 0,
         "S-high-zero-1" => high == 1,
         "S-high-zero-2" => high == 2,
         "A-high-zero-1" => l.a_pub[31] == 0 && l.a_pub[30] != 0,
@@ -352,7 +355,7 @@ pub fn run(o: Oracle, tier: Tier, seed: u64) -> i32 {
         *classes_seen.entry(class.clone()).or_insert(0u64) += 1;
         run_case(&report, o, &cl, case, true, true);
     }
-    for need in ["u-low-zero-2", "u-high-zero-2", "x-low-zero-2", "x-high-zero-2", "S-low-zero-1", "S-low-zero-2", "S-low-zero-3", "S-high-zero-1", "S-high-zero-2", "A-high-zero-1", "B-high-zero-1", "v-high-zero-1", "base-negative", "base-nonnegative", "v-high-zero-4", "A-high-zero-4", "B-high-zero-4", "B-below-2^222", "B-within-2^222-of-N", "u-high-zero-4", "x-high-zero-4"] {
+    for need in ["u-low-zero-2", "u-high-zero-2", "x-low-zero-2", "x-high-zero-2", "S-low-zero-1", "S-low-zero-2", "S-low-zero-3", "S-high-zero-1", "S-high-zero-2", "A-high-zero-1", "B-high-zero-1", "v-high-zero-1", "base-negative", "base-nonnegative", "v-high-zero-4", "A-high-zero-4", "B-high-zero-4", "B-below-2^222", "B-within-2^222-of-N", "u-high-zero-4", "x-high-zero-4", "S-low-00-xx-00"] {
         if !classes_seen.contains_key(need) {
             mc::util::machinery_error(&format!("no stored witness for promised class {need}"));
         }
